@@ -354,15 +354,36 @@ def coq_sources():
     return [os.path.relpath(f, COQ) for f in fs]
 
 
+class FileLock:
+    """blocking advisory lock: checks may be started side by side (the Makefile is regenerated by each of them, and two runs of the same
+    check share their generated case files)"""
+
+    def __init__(self, name):
+        self.path = os.path.join(COQ, ".lock_" + name)
+
+    def __enter__(self):
+        import fcntl
+        self.f = open(self.path, "w")
+        fcntl.flock(self.f, fcntl.LOCK_EX)
+        return self
+
+    def __exit__(self, *a):
+        import fcntl
+        fcntl.flock(self.f, fcntl.LOCK_UN)
+        self.f.close()
+        return False
+
+
 def build(clean=False):
     """full .vo build of the development; returns (ok, log)"""
-    if clean and os.path.exists(os.path.join(COQ, "Makefile")):
-        sh("make clean", cwd=COQ)
-    rc, out = sh("coq_makefile -f _CoqProject %s -o Makefile" % " ".join(coq_sources()), cwd=COQ)
-    if rc != 0:
-        return False, out
-    rc, out = sh("timeout 3000 make -j%d" % NCPU, cwd=COQ, timeout=3100)
-    return rc == 0, out
+    with FileLock("build"):
+        if clean and os.path.exists(os.path.join(COQ, "Makefile")):
+            sh("make clean", cwd=COQ)
+        rc, out = sh("coq_makefile -f _CoqProject %s -o Makefile" % " ".join(coq_sources()), cwd=COQ)
+        if rc != 0:
+            return False, out
+        rc, out = sh("timeout 3000 make -j%d" % NCPU, cwd=COQ, timeout=3100)
+        return rc == 0, out
 
 
 def props_assumptions(pid):
@@ -731,6 +752,10 @@ class Check:
             self.aux, self.cur, self.oracle_crashes, self.term_errors = saved
 
     def main(self, replay=None):
+        with FileLock(self.ID):
+            return self.main_locked(replay)
+
+    def main_locked(self, replay=None):
         pid = self.ID
         out_lines = []
         violations = []      # (replay_path, suffix)
